@@ -19,7 +19,7 @@ func init() {
 		Quick:    sim.Budget{Runs: 1200, WallS: 60},
 		Thorough: sim.Budget{Runs: 25000, WallS: 840},
 		LevelText: "seeded search over (t,n) with 1<=t<=n<=8 (thorough: n<=12): n parties, each a real bls.DKG with a seeded polynomial, exchange their shares over a simulated network with loss, duplication, reordering and byzantine corruption " +
-			"(scalar +-1, bit flips, misaddressed shares, wrong claimed sender, corrupted copies of the published Mpk); receivers run the shipped ValidateShare/AddSecretShare, then AggregateSecretKeyShares/AggregatePublicKeyShares, Sign, VerifySignature, RecoverGroupSig/CalBlsGpSign over seeded t-subsets and orders, " +
+			"(scalar +-1, bit flips, misaddressed shares, wrong claimed sender, corrupted copies of the published Mpk); receivers run the shipped ValidateShare/AddSecretShare, then AggregateSecretKeyShares/AggregatePublicKeyShares (run again on the same DKG object after duplicate/retransmitted shares and at seeded points between signing rounds: a retried view-change wait step), Sign, VerifySignature, RecoverGroupSig/CalBlsGpSign over seeded t-subsets and orders, " +
 			"ShareOrSigns.Validate; plus client keys: GenerateThresholdKeyShares + reconstruction, GenerateSplitKeys + AggregateSignatures. A clean batch is evidence, not proof",
 		LevelNote: "input-class property (crypto half of C34) hosted in the simulation: the simulator contributes the message schedule and the network/byzantine faults; the on-chain contribute/share/wait half belongs to C38's world and is not exercised here. " +
 			"Dropped shares are retransmitted honestly before aggregation (qualified set = all n parties), so exclusion of parties from the qualified set is not explored",
@@ -97,6 +97,9 @@ func genC34(seed uint64, tier string) *sim.Plan {
 	p.Steps = append(p.Steps, shares...)
 	p.Steps = append(p.Steps, sim.Step{Op: "finish"})
 	var rest []sim.Step
+	for i, k := 0, r.Range(0, 3); i < k; i++ {
+		rest = append(rest, sim.Step{Op: "reaggregate", A: r.Intn(12), I: []int64{int64(r.Intn(3)), int64(r.Intn(2)), int64(r.Intn(12))}})
+	}
 	for i, k := 0, r.Range(1, 3); i < k; i++ {
 		rest = append(rest, sim.Step{Op: "sign", I: []int64{int64(r.Intn(1000)), int64(tam.Intn(4)), int64(tam.Intn(1 << 16))}})
 	}
@@ -126,6 +129,7 @@ type c34Party struct {
 	mpk  []bls.PublicKey         // what it published
 	view map[int][]bls.PublicKey // corrupted copies of other parties' Mpk it currently holds
 	got  map[int]bool            // valid share of party k stored
+	redo bool                    // saw a duplicate or retransmitted share: will aggregate again
 }
 
 func execC34(env *sim.Env, p *sim.Plan) *sim.Result {
@@ -218,8 +222,12 @@ func execC34(env *sim.Env, p *sim.Plan) *sim.Result {
 			}
 			if ps[to].got[claimed] {
 				tr.Probe("duplicate-share-delivered")
+				ps[to].redo = true
 			}
 			ps[to].got[claimed] = true
+			if what == "retransmit" {
+				ps[to].redo = true
+			}
 		}
 	}
 	honestShare := func(from, to int) string {
@@ -238,6 +246,45 @@ func execC34(env *sim.Env, p *sim.Plan) *sim.Result {
 	finished := false
 	var gpk bls.PublicKey
 	verifiers := []int{}
+	allMpks := func() map[bls.PartyID][]bls.PublicKey {
+		m := map[bls.PartyID][]bls.PublicKey{}
+		for _, pt := range ps {
+			m[pt.pid] = pt.mpk
+		}
+		return m
+	}
+	// group-derived public key of every party == public key of its aggregated secret
+	checkKeys := func(when string) {
+		for i, pt := range ps {
+			for _, v := range verifiers {
+				k := ps[v].dkg.GetPublicKeyByID(pt.pid)
+				if pt.dkg.Pi == nil || !k.IsEqual(pt.dkg.Pi) {
+					viol("key-consistency", "public-key-share-mismatch", fmt.Sprintf("party %d's aggregated secret key does not match the public key party %d derives for it (%s; t=%d n=%d)", i, v, when, t, n))
+				}
+			}
+		}
+	}
+	// reaggregate: party i runs the shipped aggregation step(s) again on the same DKG object.
+	// mode 0: secret shares, 1: public shares (if i is a verifier), 2: both
+	reaggregate := func(i, mode int, why string) {
+		if mode != 1 {
+			ps[i].dkg.AggregateSecretKeyShares()
+			tr.Fault("reaggregate_secret")
+		}
+		if mode != 0 {
+			for _, v := range verifiers {
+				if v == i {
+					if err := ps[i].dkg.AggregatePublicKeyShares(allMpks()); err != nil {
+						viol("dkg", "aggregate-public-error", err.Error())
+					}
+					tr.Fault("reaggregate_public")
+				}
+			}
+		}
+		tr.Event("party %d aggregates again mode=%d (%s)", i, mode, why)
+		tr.Outcome(fmt.Sprintf("reaggregate/m%d", mode))
+		checkKeys("after party " + fmt.Sprint(i) + " aggregated again, " + why)
+	}
 	complete := func() {
 		if finished {
 			return
@@ -287,13 +334,12 @@ func execC34(env *sim.Env, p *sim.Plan) *sim.Result {
 				viol("dkg", "aggregate-public-error", err.Error())
 			}
 		}
-		// group-derived public key of every party == public key of its aggregated secret
+		checkKeys("first aggregation")
+		// a party that saw a share twice (duplicate, resent after loss) runs the aggregation step again,
+		// the way a retried view-change "wait" step does; the keys must not move
 		for i, pt := range ps {
-			for _, v := range verifiers {
-				k := ps[v].dkg.GetPublicKeyByID(pt.pid)
-				if pt.dkg.Pi == nil || !k.IsEqual(pt.dkg.Pi) {
-					viol("key-consistency", "public-key-share-mismatch", fmt.Sprintf("party %d's aggregated secret key does not match the public key party %d derives for it (t=%d n=%d)", i, v, t, n))
-				}
+			if pt.redo {
+				reaggregate(i, 2, "after duplicate/retransmitted share")
 			}
 		}
 		tr.Event("aggregated t=%d n=%d verifiers=%v", t, n, verifiers)
@@ -402,6 +448,18 @@ func execC34(env *sim.Env, p *sim.Plan) *sim.Result {
 			tr.Event("mpk copy of %d at %d corrupted (coefficient %d)", of, recv, k)
 		case "finish":
 			complete()
+		case "reaggregate":
+			complete()
+			i := st.A % n
+			if st.Int(1, 0) == 1 {
+				// a late duplicate of an honest share arrives first (AddSecretShare accepts the identical share)
+				from := int(st.Int(2, 0)) % n
+				if err := ps[i].dkg.AddSecretShare(ps[from].pid, honestShare(from, i), false); err != nil {
+					viol("dkg", "add-share-error", fmt.Sprintf("AddSecretShare refused an identical late duplicate: %v", err))
+				}
+				tr.Fault("late_duplicate")
+			}
+			reaggregate(i, int(st.Int(0, 0))%3, "explicit step")
 		case "sign":
 			complete()
 			msg := msgOf(st.Int(0, 0))
